@@ -3,6 +3,7 @@ package main
 import (
 	"fmt"
 	"go/ast"
+	"go/constant"
 	"go/token"
 	"go/types"
 	"strings"
@@ -234,5 +235,206 @@ func checkLexerFieldsMoveTogether(p *Prog, r *Result, rule string) int {
 			return true
 		})
 	}
+	return n
+}
+
+// R17g: in Filenames mode a bracket expression never matches a slash; Regexp keeps that by noticing every slash that
+// goes into the bracket (hasSlash) and emitting the whole expression as literal text when there was one. So every write
+// of pattern text into the bracket's builder is either of a rune known not to be a slash (compared equal to another
+// constant, or found above the ASCII range) or comes, on every path from where that rune was read, after a comparison
+// of it with '/' (paths on which the filenames flag was found false aside); a class name is written after a
+// strings.Contains(…, "/") test of the very text.
+func checkBracketSlashesNoticed(p *Prog, r *Result, rule string) int {
+	pkg := p.Pkg("pattern")
+	info := pkg.TypesInfo
+	fd := p.FuncDecl("pattern", "regexpNext")
+	if fd == nil {
+		r.Undecided(rule, "pattern.regexpNext", token.NoPos, "anchor not found")
+		return 0
+	}
+	g := NewFGraph(info, fd.Body, nil)
+	// the bracket builder: a local strings.Builder other than the function's parameter
+	isBracketBuilder := func(e ast.Expr) bool {
+		id, ok := ast.Unparen(e).(*ast.Ident)
+		if !ok {
+			return false
+		}
+		v, ok := info.ObjectOf(id).(*types.Var)
+		if !ok || typeName(v.Type()) != "Builder" {
+			return false
+		}
+		// declared inside the function body, not a parameter
+		return v.Pos() > fd.Body.Pos()
+	}
+	runeConst := func(e ast.Expr) (int64, bool) {
+		tv, ok := info.Types[e]
+		if !ok || tv.Value == nil {
+			return 0, false
+		}
+		return constant.Int64Val(constant.ToInt(tv.Value))
+	}
+	n := 0
+	seen := map[string]int{}
+	inspectNoLit(fd.Body, func(m ast.Node) bool {
+		c, ok := m.(*ast.CallExpr)
+		if !ok || len(c.Args) != 1 {
+			return true
+		}
+		se, ok := ast.Unparen(c.Fun).(*ast.SelectorExpr)
+		if !ok || !isBracketBuilder(se.X) || !strings.HasPrefix(se.Sel.Name, "Write") {
+			return true
+		}
+		// the rune variable the argument is made of, if any
+		var rv *ast.Ident
+		ast.Inspect(c.Args[0], func(q ast.Node) bool {
+			if id, ok := q.(*ast.Ident); ok {
+				if v, ok := info.ObjectOf(id).(*types.Var); ok {
+					if bt, ok := v.Type().Underlying().(*types.Basic); ok && bt.Kind() == types.Int32 {
+						rv = id
+					}
+				}
+			}
+			return true
+		})
+		blk := blockContaining(g, c)
+		if blk == nil {
+			return true
+		}
+		if rv == nil {
+			// a slice of pattern text: rest[:n]
+			sl, isSlice := ast.Unparen(c.Args[0]).(*ast.SliceExpr)
+			if !isSlice {
+				return true
+			}
+			n++
+			key := fmt.Sprintf("%s#a slash in %s is noticed before it is written into the bracket", funcKey("pattern", fd), exprString(sl))
+			want := exprString(sl)
+			ok2 := underEdges(g, blk, func(e *FEdge) bool { return false }) // placeholder, replaced below
+			ok2 = false
+			// the test need not dominate through its true edge: what matters is that it was evaluated on the way
+			for _, b := range g.Blocks {
+				for _, nd := range b.Nodes {
+					if cc, ok := nd.(*ast.CallExpr); ok {
+						if callee := calleeOf(info, cc); callee != nil && callee.Pkg() != nil && callee.Pkg().Path() == "strings" && strings.HasPrefix(callee.Name(), "Contains") && len(cc.Args) == 2 && exprString(cc.Args[0]) == want {
+							if v, isC := info.Types[cc.Args[1]]; isC && v.Value != nil && strings.Contains(v.Value.ExactString(), "/") {
+								doms := g.Dominators()
+								// the block that holds `filenames` precedes it; accept the test when every path to the write passes either
+								if doms[blk][b] {
+									ok2 = true
+								} else {
+									pass, _ := g.MustPass(g.Entry, -1, blk, func(q ast.Node) bool { return q == ast.Node(cc) }, func(e *FEdge) bool {
+										id, isID := ast.Unparen(e.Cond).(*ast.Ident)
+										return isID && strings.Contains(strings.ToLower(id.Name), "filename") && !e.Pol
+									})
+									if pass {
+										ok2 = true
+									}
+								}
+							}
+						}
+					}
+				}
+			}
+			r.Check(ok2, rule, key, c.Pos(), "a strings.Contains test for \"/\" of the same text lies on every path to the write (paths not in Filenames mode aside)",
+				"pattern text is copied into the bracket expression without having been searched for a slash: in Filenames mode the expression would match a path separator")
+			return true
+		}
+		obj := info.ObjectOf(rv)
+		n++
+		key := fmt.Sprintf("%s#%s: a slash in %s is noticed before it is written into the bracket", funcKey("pattern", fd), exprString(c), rv.Name)
+		seen[key]++
+		if seen[key] > 1 {
+			key += fmt.Sprintf("#%d", seen[key])
+		}
+		// an edge that establishes that the rune is some other character
+		otherChar := func(e *FEdge) bool {
+			if e.Tag != nil {
+				if id, ok := ast.Unparen(e.Tag).(*ast.Ident); ok && info.ObjectOf(id) == obj && e.Pol {
+					if k, ok := runeConst(e.Cond); ok && k != '/' {
+						return true
+					}
+				}
+				return false
+			}
+			be, ok := ast.Unparen(e.Cond).(*ast.BinaryExpr)
+			if !ok {
+				return false
+			}
+			id, ok := ast.Unparen(be.X).(*ast.Ident)
+			if !ok || info.ObjectOf(id) != obj {
+				return false
+			}
+			k, ok := runeConst(be.Y)
+			if !ok {
+				return false
+			}
+			switch be.Op {
+			case token.EQL:
+				return e.Pol && k != '/'
+			case token.GTR, token.GEQ:
+				return e.Pol && k >= '/'
+			}
+			return false
+		}
+		// (b) every path from the last read of the rune to the write compares it with '/'
+		isCmp := func(q ast.Node) bool {
+			be, ok := q.(*ast.BinaryExpr)
+			if !ok {
+				return false
+			}
+			id, ok := ast.Unparen(be.X).(*ast.Ident)
+			if !ok || info.ObjectOf(id) != obj {
+				return false
+			}
+			k, ok := runeConst(be.Y)
+			return ok && k == '/'
+		}
+		skipNotFilenames := func(e *FEdge) bool {
+			if otherChar(e) {
+				return true // on this path the rune is known to be another character
+			}
+			id, isID := ast.Unparen(e.Cond).(*ast.Ident)
+			return isID && strings.Contains(strings.ToLower(id.Name), "filename") && !e.Pol
+		}
+		okAll, defs := true, 0
+		for _, b := range g.Blocks {
+			for i, nd := range b.Nodes {
+				as, ok := nd.(*ast.AssignStmt)
+				if !ok {
+					continue
+				}
+				assigns := false
+				for _, l := range as.Lhs {
+					if id, ok := l.(*ast.Ident); ok && info.ObjectOf(id) == obj {
+						assigns = true
+					}
+				}
+				if !assigns || !g.Reachable(b, nil)[blk] {
+					continue
+				}
+				defs++
+				pass, _ := g.MustPass(b, i, blk, func(q ast.Node) bool {
+					if isCmp(q) {
+						return true
+					}
+					// another read of the rune starts over
+					if a2, ok := q.(*ast.AssignStmt); ok && q != ast.Node(as) {
+						for _, l := range a2.Lhs {
+							if id, ok := l.(*ast.Ident); ok && info.ObjectOf(id) == obj {
+								return true
+							}
+						}
+					}
+					return false
+				}, skipNotFilenames)
+				if !pass {
+					okAll = false
+				}
+			}
+		}
+		r.Check(okAll && defs > 0, rule, key, c.Pos(), "every path from a read of "+rv.Name+" to this write compares it with '/', or finds it to be another character (paths not in Filenames mode aside)",
+			fmt.Sprintf("%s, read from the pattern, is written into the bracket expression on a path that never compared it with '/': hasSlash is not set for it, and in Filenames mode `a[\\/]b` matches `a/b`", rv.Name))
+		return true
+	})
 	return n
 }
